@@ -97,3 +97,7 @@ native_unit("boundary_native", "winter-air", "air", "native/boundary_bounded.rs"
             ["TransitionConstraints::new", "TransitionConstraints::combine_evaluations", "AirContext::set_num_transition_exemptions", "ConstraintDivisor::from_transition", "BoundaryConstraints::new", "boundary::prepare_assertions", "boundary::group_constraints", "BoundaryConstraintGroup::divisor", "BoundaryConstraint::evaluate_at", "ConstraintDivisor::from_assertion", "ConstraintDivisor::evaluate_at"],
             "TransitionConstraints::new gives the first num_main composition coefficients to the main and the following num_aux to the auxiliary constraints and combine_evaluations is their random linear combination over the transition divisor (1..4 main x 0..4 auxiliary constraints); assertion lists in which two assertions constrain the same cell are refused in every listing order; otherwise the constraint groups' divisors vanish on exactly the asserted steps of each of their constraints and each constraint compares the cell with the asserted value (value polynomial incl. offset); a number of transition exemptions is accepted exactly when it is in 1..=len/2+1 and the quotient still fits the constraint evaluation domain, and the transition divisor vanishes on exactly the non-exempt steps",
             "NATIVE EXECUTION, not a proof: trace lengths 8, 16, 32 x 2 columns x every single / periodic / sequence assertion: all single assertions, all ordered pairs, 3000 seeded triples per length; exemptions: trace lengths 8..64 x every count 0..=len x constraint degrees 1..9 alone, in pairs and with periodic cycles; 128-bit field")
+
+
+verus_unit("friverifv", "friverifv", ["C05", "C04"], [
+    "FriVerifier::new (every number of layer commitments, folding factor and degree bound, abstract channel / coin / field: a commitment list of the wrong length is refused before the coin is touched; otherwise the coin sees exactly reseed(c_0), draw, reseed(c_1), draw, ... and the challenge stored for layer i is the one drawn after c_i; DegreeTruncation exactly at the first non-final depth whose running degree bound plus one is not a multiple of the folding factor; the verifier keeps the commitments, the degree bound and the domain size it was given)"])
